@@ -523,3 +523,327 @@ Proof.
   - (* FWClose *) destruct (f_w s) eqn:Ew; try discriminate. inversion H; subst s1; clear H. keep_b I.
   - (* FWExit *) destruct (f_w s) eqn:Ew; try discriminate. inversion H; subst s1; clear H. keep_b I.
 Qed.
+
+Lemma invb_run c : forall ls s s1, InvB s -> run_flabels c s ls = Some s1 -> InvB s1.
+Proof.
+  induction ls as [|l ls IH]; intros s s1 I H; cbn in H.
+  - inversion H; subst; exact I.
+  - destruct (fstep c s l) as [s2|] eqn:E; [|discriminate].
+    eapply IH; [|exact H]. eapply invb_step; eauto.
+Qed.
+
+(* ------------------------------------------------------------ InvC: what is reported comes from a dispatched <hello> *)
+Definition from_seen (s : fstate) (sd : sid) (sv : list bytes) : Prop :=
+  exists t, In t (f_seen s) /\ parse_hello t = Ok (sd, sv).
+
+Record InvC (s : fstate) : Prop := {
+  c_caps : forall sv, f_caps s = Some sv -> exists sd, from_seen s sd sv;
+  c_chosen : forall sv, f_chosen s = Some sv -> exists sd, from_seen s sd sv;
+  c_ok0 : forall sd uris, f_w s = WOk0 sd uris -> from_seen s sd uris;
+  c_ok1 : forall uris, f_w s = WOk1 uris -> from_seen s (f_sid s) uris;
+  c_one_w : (length (f_seen s) <= 1)%nat ->
+            match f_w s with WOk0 _ _ | WOk1 _ => f_caps s = None | _ => True end;
+  c_one_pair : (length (f_seen s) <= 1)%nat -> forall sv, f_caps s = Some sv -> from_seen s (f_sid s) sv;
+  c_one_chosen : (length (f_seen s) <= 1)%nat -> forall sv, f_chosen s = Some sv -> f_caps s = Some sv
+}.
+
+Lemma invc_init : InvC finit.
+Proof. constructor; cbn; try discriminate; auto. Qed.
+
+Ltac brkc I := destruct I as [Ccaps Cchosen Cok0 Cok1 Conew Conepair Conechosen].
+
+(* steps that leave sid, caps, chosen and seen alone and keep the worker out of (or inside the same point of) ok_cb *)
+Lemma invc_keep s s1 :
+  InvC s -> f_sid s1 = f_sid s -> f_caps s1 = f_caps s -> f_chosen s1 = f_chosen s -> f_seen s1 = f_seen s ->
+  (f_w s1 = f_w s \/ match f_w s1 with WOk0 _ _ | WOk1 _ => False | _ => True end) ->
+  InvC s1.
+Proof.
+  intros I Es Ec Eh En Hw. brkc I. unfold from_seen in *.
+  constructor; unfold from_seen; rewrite ?Es, ?Ec, ?Eh, ?En.
+  - exact Ccaps.
+  - exact Cchosen.
+  - intros sd uris X. destruct Hw as [Hw|Hw]; [rewrite Hw in X; eauto|rewrite X in Hw; contradiction].
+  - intros uris X. destruct Hw as [Hw|Hw]; [rewrite Hw in X; eauto|rewrite X in Hw; contradiction].
+  - intros L. destruct Hw as [Hw|Hw]; [rewrite Hw; exact (Conew L)|destruct (f_w s1); try contradiction; exact Logic.I].
+  - exact Conepair.
+  - exact Conechosen.
+Qed.
+
+Ltac keep_c I := eapply invc_keep; [exact I|projs; try reflexivity; auto ..].
+
+Lemma invc_step c s l s1 : InvC s -> fstep c s l = Some s1 -> InvC s1.
+Proof.
+  intros I H. destruct l; cbn [fstep] in H.
+  - destruct (f_m s) eqn:Em; try discriminate. inversion H; subst s1; clear H. keep_c I.
+  - destruct (f_m s) eqn:Em; try discriminate. inversion H; subst s1; clear H. keep_c I.
+  - destruct (f_m s) eqn:Em; try discriminate. inversion H; subst s1; clear H. keep_c I.
+  - destruct (f_m s) eqn:Em; try discriminate. destruct (f_w s) eqn:Ew; try discriminate.
+    inversion H; subst s1; clear H. keep_c I.
+  - destruct (f_m s) eqn:Em; try discriminate. destruct (Bool.eqb b (f_ev s)); [|discriminate].
+    inversion H; subst s1; clear H. keep_c I.
+  - destruct (f_m s) eqn:Em; try discriminate. destruct (Bool.eqb b (f_ev s)); [|discriminate].
+    inversion H; subst s1; clear H. keep_c I.
+  - destruct (f_m s) eqn:Em; try discriminate. inversion H; subst s1; clear H. keep_c I.
+  - (* FMCaps *) destruct (f_m s) eqn:Em; try discriminate. destruct (f_err s) eqn:Ee; try discriminate.
+    inversion H; subst s1; clear H. unfold decide.
+    destruct (f_caps s) as [sv|] eqn:Ec; [|keep_c I].
+    destruct (choose_base sv c) as [[|]| |x] eqn:Ech; [ | |keep_c I|keep_c I]; brkc I; unfold from_seen in *;
+      (constructor; unfold from_seen; projs; try assumption;
+       [intros sv0 X; inversion X; subst; apply Ccaps; exact Ec | intros L sv0 X; inversion X; subst; exact Ec]).
+  - destruct (f_m s) eqn:Em; try discriminate. inversion H; subst s1; clear H. keep_c I.
+  - destruct (f_m s) eqn:Em; try discriminate.
+    + destruct (f_err s) eqn:Ee; try discriminate. inversion H; subst s1; clear H. keep_c I.
+    + inversion H; subst s1; clear H. keep_c I.
+  - destruct (f_m s) as [| | | | | | | | | |[e|]] eqn:Em; try discriminate. inversion H; subst s1; clear H. keep_c I.
+  - destruct (f_w s) eqn:Ew; try discriminate. destruct (f_q s) as [|m' q'] eqn:Eq; try discriminate.
+    destruct (N.eqb m m'); try discriminate. inversion H; subst s1; clear H. keep_c I.
+  - destruct (f_w s) eqn:Ew; try discriminate. destruct (Bool.eqb b (f_pending s)); try discriminate.
+    inversion H; subst s1; clear H. destruct b; keep_c I.
+  - destruct (f_w s) eqn:Ew; try discriminate. inversion H; subst s1; clear H. keep_c I.
+  - destruct (f_w s) eqn:Ew; try discriminate. destruct (base_eqb b (f_base s)); try discriminate.
+    inversion H; subst s1; clear H. keep_c I.
+  - destruct (f_w s) eqn:Ew; try discriminate. inversion H; subst s1; clear H. keep_c I.
+  - destruct (f_w s) eqn:Ew; try discriminate. inversion H; subst s1; clear H. keep_c I.
+  - (* FWDisp *) destruct (f_w s) eqn:Ew; try discriminate. inversion H; subst s1; clear H.
+    unfold on_hello. destruct h as [t|]; [|exact I].
+    assert (Hmono : forall sd sv, from_seen s sd sv -> from_seen (set_seen s (f_seen s ++ [t])) sd sv).
+    { intros sd sv (t0 & Hin & Hp). exists t0. projs. split; [apply in_or_app; auto|exact Hp]. }
+    assert (Hone : (length (f_seen s ++ [t]) <= 1)%nat -> f_caps s = None /\ f_chosen s = None).
+    { intros L. rewrite app_length in L. cbn in L. destruct (f_seen s) as [|t0 r] eqn:En; [|cbn in L; lia].
+      brkc I. split.
+      - destruct (f_caps s) as [sv|] eqn:Ec; [|reflexivity]. destruct (Ccaps sv eq_refl) as (sd & t1 & Hin & _).
+        rewrite En in Hin. contradiction.
+      - destruct (f_chosen s) as [sv|] eqn:Ec; [|reflexivity]. destruct (Cchosen sv eq_refl) as (sd & t1 & Hin & _).
+        rewrite En in Hin. contradiction. }
+    assert (IC : InvC (set_seen s (f_seen s ++ [t]))).
+    { brkc I. constructor; projs.
+      - intros sv X. destruct (Ccaps sv X) as (sd & F). exists sd. apply Hmono. exact F.
+      - intros sv X. destruct (Cchosen sv X) as (sd & F). exists sd. apply Hmono. exact F.
+      - intros sd uris X. congruence.
+      - intros uris X. congruence.
+      - intros _. rewrite Ew. exact Logic.I.
+      - intros L sv X. destruct (Hone L) as [Y _]. congruence.
+      - intros L sv X. destruct (Hone L) as [_ Y]. congruence. }
+    destruct (f_lis (set_seen s (f_seen s ++ [t]))); [|exact IC].
+    destruct (parse_hello t) as [[sd uris]| |x] eqn:Ep;
+      [ |eapply invc_keep; [exact IC|projs; try reflexivity; auto ..]|eapply invc_keep; [exact IC|projs; try reflexivity; auto ..]].
+    brkc IC. constructor; projs; try assumption.
+    + intros sd0 uris0 X. inversion X; subst. exists t. projs. split; [apply in_or_app; right; left; reflexivity|exact Ep].
+    + intros uris0 X. discriminate.
+    + intros L. destruct (Hone L) as [Y _]. exact Y.
+  - (* FWSid *) destruct (f_w s) eqn:Ew; try discriminate. inversion H; subst s1; clear H. brkc I.
+    constructor; unfold from_seen in *; projs; try assumption.
+    + intros sd0 uris0 X. discriminate.
+    + intros uris0 X. inversion X; subst. apply Cok0. exact Ew.
+    + intros L. specialize (Conew L). rewrite Ew in Conew. exact Conew.
+    + intros L sv X. specialize (Conew L). rewrite Ew in Conew. congruence.
+  - (* FWCaps *) destruct (f_w s) eqn:Ew; try discriminate. inversion H; subst s1; clear H. brkc I.
+    constructor; unfold from_seen in *; projs; try assumption.
+    + intros sv X. inversion X; subst. exists (f_sid s). apply Cok1. exact Ew.
+    + intros sd0 uris0 X. discriminate.
+    + intros uris0 X. discriminate.
+    + intros _. exact Logic.I.
+    + intros L sv X. inversion X; subst. apply Cok1. exact Ew.
+    + intros L sv X. specialize (Conew L). rewrite Ew in Conew. specialize (Conechosen L sv X). congruence.
+  - destruct (f_w s) eqn:Ew; try discriminate. inversion H; subst s1; clear H. keep_c I.
+  - destruct (f_w s) eqn:Ew; try discriminate. inversion H; subst s1; clear H. keep_c I. destruct dying0; auto.
+  - destruct (f_w s) eqn:Ew; try discriminate. destruct e; try discriminate; inversion H; subst s1; clear H; keep_c I.
+  - destruct (f_w s) eqn:Ew; try discriminate. inversion H; subst s1; clear H. keep_c I. destruct (f_lis s); auto.
+  - destruct (f_w s) eqn:Ew; try discriminate. inversion H; subst s1; clear H. keep_c I.
+  - destruct (f_w s) eqn:Ew; try discriminate. inversion H; subst s1; clear H. keep_c I.
+Qed.
+
+Lemma invc_run c : forall ls s s1, InvC s -> run_flabels c s ls = Some s1 -> InvC s1.
+Proof.
+  induction ls as [|l ls IH]; intros s s1 I H; cbn in H.
+  - inversion H; subst; exact I.
+  - destruct (fstep c s l) as [s2|] eqn:E; [|discriminate].
+    eapply IH; [|exact H]. eapply invc_step; eauto.
+Qed.
+
+(* ------------------------------------------------------------ the ghost list is the list of dispatched hellos *)
+Definition hello_of (l : flabel) : list node := match l with FWDisp (HTree t) => [t] | _ => [] end.
+Definition hellos (ls : list flabel) : list node := flat_map hello_of ls.
+
+Ltac split_step H :=
+  repeat match type of H with
+         | context [match ?x with _ => _ end] => destruct x eqn:?; try discriminate
+         end.
+
+Lemma step_seen c s l s1 : fstep c s l = Some s1 -> f_seen s1 = f_seen s ++ hello_of l.
+Proof.
+  intros H. destruct l; cbn [fstep] in H; unfold decide, on_hello in H; split_step H;
+  inversion H; subst; projs; cbn [hello_of]; rewrite ?app_nil_r; reflexivity.
+Qed.
+
+Lemma run_seen c : forall ls s s1, run_flabels c s ls = Some s1 -> f_seen s1 = f_seen s ++ hellos ls.
+Proof.
+  induction ls as [|l ls IH]; intros s s1 H; cbn in H.
+  - inversion H; subst. cbn. rewrite app_nil_r. reflexivity.
+  - destruct (fstep c s l) as [s2|] eqn:E; [|discriminate].
+    rewrite (IH _ _ H), (step_seen _ _ _ _ E). unfold hellos. cbn [flat_map]. rewrite app_assoc. reflexivity.
+Qed.
+
+Lemma in_hellos t ls : In t (hellos ls) -> In (FWDisp (HTree t)) ls.
+Proof.
+  unfold hellos. intros H. apply in_flat_map in H. destruct H as (l & Hin & Hl).
+  destruct l; cbn in Hl; try contradiction. destruct h as [t0|]; cbn in Hl; [|contradiction].
+  destruct Hl as [->|[]]. exact Hin.
+Qed.
+
+(* ------------------------------------------------------------ final statements *)
+Section Final.
+Variable c : list bytes.
+Variable labels : list flabel.
+Variable s : fstate.
+Hypothesis Hrun : run_flabels c finit labels = Some s.
+
+Lemma f_inva : InvA c s. Proof. exact (inva_run c labels finit s (inva_init c) Hrun). Qed.
+Lemma f_invb : InvB s. Proof. exact (invb_run c labels finit s invb_init Hrun). Qed.
+Lemma f_invc : InvC s. Proof. exact (invc_run c labels finit s invc_init Hrun). Qed.
+Lemma f_seen_hellos : f_seen s = hellos labels. Proof. exact (run_seen c labels finit s Hrun). Qed.
+
+Lemma fc05_first_frame : f_wire s = [] \/ exists rest, f_wire s = (B10, 0) :: rest.
+Proof.
+  destruct f_inva as [Ipre Ihello _ _ _ _ _ _].
+  destruct (early (f_m s)) eqn:E.
+  - left. destruct (f_m s); try discriminate; destruct Ipre as (_ & _ & W & _); exact W.
+  - destruct (Ihello eq_refl) as [(_ & W & _)|[(_ & W & _)|(_ & [W|(W & _)])]]; auto.
+Qed.
+
+Lemma fc05_iff : forall i f m, nth_error (f_wire s) (S i) = Some (f, m) ->
+  f_m s = MDone None /\ exists sv, f_chosen s = Some sv /\ (f = B11 <-> has11 sv /\ has11 c).
+Proof.
+  intros i f m Hn. destruct f_inva as [_ _ _ Ibase Ilater _ _ _].
+  destruct (Ilater i (f, m) Hn) as [Hf Hm]. cbn in Hf. split; [exact Hm|].
+  rewrite Hm in Ibase. destruct Ibase as (sv & Hc & Hch). exists sv. split; [exact Hc|].
+  rewrite <- c05_choose_iff. rewrite Hch, Hf. split; congruence.
+Qed.
+
+Lemma fc05_base :
+  (f_base s = B11 -> exists sv, f_chosen s = Some sv /\ has11 sv /\ has11 c) /\
+  (f_m s = MDone None -> exists sv, f_chosen s = Some sv /\ (f_base s = B11 <-> has11 sv /\ has11 c)).
+Proof.
+  destruct f_inva as [_ _ _ Ibase _ _ _ _]. split.
+  - intros Hb. destruct (f_m s) as [| | | | | | | | |[e|]|[e|]]; try congruence;
+    try (destruct Ibase as (B & _); congruence);
+    destruct Ibase as (sv & Hc & Hch); exists sv; (split; [exact Hc|]); apply c05_choose_iff; congruence.
+  - intros Hm. rewrite Hm in Ibase. destruct Ibase as (sv & Hc & Hch). exists sv. split; [exact Hc|].
+    rewrite <- c05_choose_iff. rewrite Hch. split; congruence.
+Qed.
+
+Lemma fc05_before_return : f_m s <> MDone None -> (length (f_wire s) <= 1)%nat.
+Proof. intros H. pose proof (a_count _ _ f_inva H). lia. Qed.
+
+Lemma fc05_chosen_from_hello : forall sv, f_chosen s = Some sv ->
+  exists t sd, In (FWDisp (HTree t)) labels /\ parse_hello t = Ok (sd, sv).
+Proof.
+  intros sv H. destruct (c_chosen _ f_invc sv H) as (sd & t & Hin & Hp).
+  exists t, sd. split; [|exact Hp]. apply in_hellos. rewrite <- f_seen_hellos. exact Hin.
+Qed.
+
+Lemma fc05_reports : (length (hellos labels) <= 1)%nat -> f_m s = MDone None ->
+  exists t sv, hellos labels = [t] /\ parse_hello t = Ok (f_sid s, sv) /\ f_caps s = Some sv /\ f_chosen s = Some sv.
+Proof.
+  intros L Hm. rewrite <- f_seen_hellos in *.
+  pose proof (a_base _ _ f_inva) as Ibase. rewrite Hm in Ibase. destruct Ibase as (sv & Hc & _).
+  pose proof (c_one_chosen _ f_invc L sv Hc) as Hcaps.
+  destruct (c_one_pair _ f_invc L sv Hcaps) as (t & Hin & Hp).
+  exists t, sv. repeat split; auto.
+  destruct (f_seen s) as [|t0 [|t1 r]]; cbn in *; try contradiction; try lia.
+  destruct Hin as [->|[]]. reflexivity.
+Qed.
+
+Lemma fc05_no_typeerror : f_m s <> M9 (Some EChoose) /\ f_m s <> MDone (Some EChoose).
+Proof.
+  pose proof (b_res _ f_invb EChoose) as B. unfold transport_err in B.
+  split; intros X; [destruct (B (or_introl X)) as [Y|[Y|[Y|Y]]]|destruct (B (or_intror X)) as [Y|[Y|[Y|Y]]]]; discriminate.
+Qed.
+
+Definition fgood (l : flabel) : Prop := exists t sd uris, l = FWDisp (HTree t) /\ parse_hello t = Ok (sd, uris).
+
+Lemma fc05_needs_hello : (forall l, In l labels -> ~ fgood l) -> f_m s <> MDone None.
+Proof.
+  intros Hno Hm. pose proof (a_base _ _ f_inva) as Ibase. rewrite Hm in Ibase. destruct Ibase as (sv & Hc & _).
+  destruct (fc05_chosen_from_hello sv Hc) as (t & sd & Hin & Hp).
+  apply (Hno _ Hin). exists t, sd, sv. auto.
+Qed.
+End Final.
+
+Lemma dying_step c s l s1 : dying (f_w s) -> fstep c s l = Some s1 -> dying (f_w s1) /\ forall h, l <> FWDisp h.
+Proof.
+  intros D H. destruct l; cbn [fstep] in H; unfold decide, on_hello in H; split_step H;
+  inversion H; subst; projs; cbn in *; try contradiction; (split; [auto|intros; discriminate]).
+Qed.
+
+Lemma dying_run c : forall ls s s1, dying (f_w s) -> run_flabels c s ls = Some s1 -> forall l h, In l ls -> l <> FWDisp h.
+Proof.
+  induction ls as [|l ls IH]; intros s s1 D H l0 h Hin; [contradiction|]. cbn in H.
+  destruct (fstep c s l) as [s2|] eqn:E; [|discriminate].
+  destruct (dying_step _ _ _ _ D E) as [D2 Hl]. destruct Hin as [->|Hin]; [apply Hl|].
+  eapply IH; eauto.
+Qed.
+
+Lemma fc05_die_first : forall c pre e post s,
+  run_flabels c finit (pre ++ FWDie e :: post) = Some s ->
+  (forall l, In l pre -> ~ fgood l) -> f_m s <> MDone None.
+Proof.
+  intros c pre e post s H Hno.
+  apply (fc05_needs_hello c _ s H). intros l Hin.
+  apply in_app_or in Hin. destruct Hin as [Hin|[<-|Hin]].
+  - apply Hno. exact Hin.
+  - intros (t & sd & uris & X & _). discriminate.
+  - destruct (run_fapp c pre (FWDie e :: post) finit s H) as (s1 & H1 & H2). cbn [run_flabels] in H2.
+    destruct (fstep c s1 (FWDie e)) as [s2|] eqn:E; [|discriminate].
+    assert (D : dying (f_w s2)).
+    { cbn [fstep] in E. destruct (f_w s1); try discriminate. destruct e; try discriminate; inversion E; subst; exact Logic.I. }
+    intros (t & sd & uris & X & _). exact (dying_run c post s2 s D H2 l (HTree t) Hin X).
+Qed.
+
+(* ------------------------------------------------------------ the connecting thread is never blocked and bounded *)
+Definition mrank (m : mpc) : nat :=
+  match m with M0 => 0 | M1 => 1 | M2 => 2 | M3 => 3 | M4 => 4 | M5 => 5 | M6 => 6 | M7 => 7 | M8 => 8 | M9 _ => 9 | MDone _ => 10 end.
+Definition count_m (ls : list flabel) : nat := length (filter is_mlabel ls).
+
+Lemma fc05_main_never_blocked : forall c labels s,
+  run_flabels c finit labels = Some s -> (forall r, f_m s <> MDone r) ->
+  exists l s', is_mlabel l = true /\ fstep c s l = Some s'.
+Proof.
+  intros c labels s H Hn. pose proof (a_pre _ _ (f_inva c labels s H)) as Ipre.
+  destruct (f_m s) eqn:Em.
+  - exists FMReg. eexists. split; [reflexivity|]. cbn. rewrite Em. reflexivity.
+  - exists FMPend. eexists. split; [reflexivity|]. cbn. rewrite Em. reflexivity.
+  - exists FMPutHello. eexists. split; [reflexivity|]. cbn. rewrite Em. reflexivity.
+  - exists FMStart. eexists. split; [reflexivity|]. cbn. rewrite Em. destruct Ipre as (_ & _ & _ & ->). reflexivity.
+  - exists (FMWait (f_ev s)). eexists. split; [reflexivity|]. cbn. rewrite Em, Bool.eqb_reflx. reflexivity.
+  - exists (FMIsSet (f_ev s)). eexists. split; [reflexivity|]. cbn. rewrite Em, Bool.eqb_reflx. reflexivity.
+  - exists FMUnreg. eexists. split; [reflexivity|]. cbn. rewrite Em. reflexivity.
+  - destruct (f_err s) eqn:Ee.
+    + exists FMRet. eexists. split; [reflexivity|]. cbn. rewrite Em, Ee. reflexivity.
+    + exists FMCaps. eexists. split; [reflexivity|]. cbn. rewrite Em, Ee. reflexivity.
+  - exists FMBase. eexists. split; [reflexivity|]. cbn. rewrite Em. reflexivity.
+  - exists FMRet. eexists. split; [reflexivity|]. cbn. rewrite Em. reflexivity.
+  - exfalso. exact (Hn r eq_refl).
+Qed.
+
+Lemma step_rank c s l s1 : fstep c s l = Some s1 ->
+  (mrank (f_m s) + (if is_mlabel l then 1 else 0) <= mrank (f_m s1))%nat.
+Proof.
+  intros H. destruct l; cbn [fstep] in H; unfold decide, on_hello in H; split_step H;
+  inversion H; subst; projs; cbn; repeat match goal with E : f_m _ = _ |- _ => rewrite E end; cbn; lia.
+Qed.
+
+Lemma run_rank c : forall ls s s1, run_flabels c s ls = Some s1 -> (mrank (f_m s) + count_m ls <= mrank (f_m s1))%nat.
+Proof.
+  induction ls as [|l ls IH]; intros s s1 H; cbn in H.
+  - inversion H; subst. cbn. lia.
+  - destruct (fstep c s l) as [s2|] eqn:E; [|discriminate].
+    pose proof (step_rank _ _ _ _ E). pose proof (IH _ _ H). unfold count_m in *. cbn [filter].
+    destruct (is_mlabel l); cbn [length]; lia.
+Qed.
+
+Lemma fc05_main_bounded : forall c labels s, run_flabels c finit labels = Some s -> (count_m labels <= 10)%nat.
+Proof.
+  intros c labels s H. pose proof (run_rank _ _ _ _ H). cbn in H0.
+  assert (mrank (f_m s) <= 10)%nat by (destruct (f_m s); cbn; lia). lia.
+Qed.
